@@ -7,7 +7,7 @@ import GT.Lemmas.RepAutLang
 
 set_option linter.unusedSectionVars false
 
-namespace GT
+namespace GT.RepW
 
 theorem mapM_ok_of_forall {α β : Type} (f : α → M? β) :
     ∀ l : List α, (∀ x ∈ l, ∃ y, f x = .ok y) → ∃ ys, l.mapM f = .ok ys
@@ -39,7 +39,7 @@ theorem accSpec_total (ρ : Rep n R) (a : Aut V) (o : AccOpts) (S : V → Prop)
       unfold specBody
       rw [hr, hE]
       rfl)
-    refine ⟨_, ?_⟩
+    refine ⟨(if o.maxlen then zeroPairs a o v else []) ++ parts.flatten, ?_⟩
     rw [accSpec_succ, he]
     show (do
       let parts ← e.mapM (ρ.specBody a o k)
@@ -251,4 +251,4 @@ theorem accSpec_total_end (ρ : Rep n R) (a : Aut V) (o : AccOpts) (h1 : o.asSta
     exact hlab u e he ln hle
 
 end Rep
-end GT
+end GT.RepW
